@@ -7,12 +7,19 @@ def harnesses(tier):
                 what='hydrogen-only closed form: the neutral fraction returned is in [1e-14, 1] for every positive recombination rate, flux and density (sign reasoning: cc = sqrt(bb+1) >= 1, so 1 + aa*(1-cc) <= 1), and exactly 1 for zero flux or zero density',
                 bound='alphaH, jH, nH symbolic reals: positive within [2^-100,2^100], jH and nH may be exactly 0; loop-free'),
             BHarness('I1_monotone_taylor', 'c06_ion.cpp', 'h_i1_monotone_taylor', cflags=cf, strict=True, monotone=True, timeout=900,
-                what='in the large-flux (Taylor) branch the neutral fraction is weakly decreasing in the radiation field (every rounded operation on the path is monotone)', bound='both evaluations in the bb < 1e-10 branch; symbolic positive inputs')]
+                what='in the large-flux (Taylor) branch the neutral fraction is weakly decreasing in the radiation field (every rounded operation on the path is monotone)', bound='both evaluations in the bb < 1e-10 branch; symbolic positive inputs'),
+            BHarness('R1_hhe_hydrogen_only', 'c06_real.cpp', 'h_r1_hhe_hydrogen_only', cflags=cf, real_model=True, perturb=False, timeout=900,
+                what='REAL-MODEL: hydrogen-only gas through the coupled H/He solver (AHe = 0, no helium-ionizing photons; the route the thermal balance takes): 0 < x < 1, helium neutral, and x solves the balance C(1-x)^2 = x to within the series cut-off (relative residual <= 1e-3) on every path through the iteration; no zero denominator',
+                bound='alphaH in [1e-20,1e-16], jH in [1e-20,1e3] (the 23 flux decades), nH in [1e4,1e12], T in [1e2,1e5], all symbolic reals; all paths of the iteration (it converges in <= 3 passes here); double operations read as exact real operations (rounding outside this clause), sqrt by s>=0 & s*s=a, exp by positivity/sign facts'),
+            BHarness('I2_metal_stages', 'c06_real.cpp', 'h_i2_metals', cflags=cf, real_model=True, perturb=False, timeout=900,
+                what='REAL-MODEL: compute_ionization_states_metals with the real ChargeTransferRates: for every positive electron density all 12 metal stage fractions are in [0,1], the tracked stages of C, N, O, Ne, S each sum to at most 1, and no denominator is zero (finite results); the charge-transfer rates are proved positive on the way (1 - 0.92 exp(-8.38 T4) > 0 etc.)',
+                bound='12 intensity integrals in [0,1e3], recombination rates in [1e-22,1e-14] (stub: positive), ne in (0,1e13], nh0, nhe0, nhp in [0,1e12], T in [1e2,1e5]; exact real operations, exp/pow by sign facts')]
 
 def run(tier, only=None):
     ev = Evidence('C06', tier); work = Work('C06')
-    ev.assumptions += ['IEEE-UF sign/monotonicity axioms (theorems of binary64 RNE on finite values); stated domain [2^-100,2^100]']
-    ev.outside += ['coupled H/He fixed point (exp, pow, <= 20 iterations, abort on non-convergence)', 'metal stage normalisation I2', 'TemperatureCalculator (tables from files, secant iteration)', 'monotonicity outside the Taylor branch (cancellation: holds only up to round-off)', '"solves the balance equation" (real-number residual)']
+    ev.assumptions += ['IEEE-UF sign/monotonicity axioms (theorems of binary64 RNE on finite values); stated domain [2^-100,2^100]', 'R1/I2 are REAL-MODEL clauses: each double operation is the exact real operation, so they decide the formulas the code implements, not its rounding (I1 covers rounding for the closed form)']
+    ev.stubs += ['NDRates: RecombinationRates returning an arbitrary positive rate per ion (contract of the shipped Verner fits, which are data)']
+    ev.outside += ['coupled H/He fixed point with helium present (AHe > 0: exp, pow, <= 20 iterations, abort on non-convergence)', 'metal stages under rounding (I2 is decided in real arithmetic), electron density exactly 0 passed by the caller', 'TemperatureCalculator (tables from files, secant iteration)', 'monotonicity outside the Taylor branch (cancellation: holds only up to round-off)', 'the balance residual under rounding (cancellation in b - sqrt(b^2 - 4 C^2) for large C)']
     try:
         hb = [h for h in harnesses(tier) if not only or h.name.startswith(only)]
         violations, broken = run_engine_b('C06', tier, hb, ev, work)
